@@ -31,6 +31,13 @@ def scenario(rng, i):
                 st["keep_mtime"] = True
         steps.append(st)
         cur = world.tree_apply(cur, st)
+    if i % 6 == 1:
+        # a whole folder with what is in it goes away: every recorded entry below it is missing, and each is named
+        full = [d for d in gen.all_dirs(cur) if gen._node(cur, d)["d"]]
+        if full:
+            st = {"op": "delete", "path": rng.choice(full)}
+            steps.append(st)
+            cur = world.tree_apply(cur, st)
     order = [{"op": "verify"}, {"op": "diff"}, {"op": "create", "fmts": gen.gen_fmts(rng), **({"n": True} if rng.random() < 0.3 else {}),
                                                   **({"dr": True} if i % 7 in (3, 5) else {})}]
     rng.shuffle(order)
@@ -42,7 +49,7 @@ def scenario(rng, i):
 
 
 RULE = ("sealed trees (flat / nested, 1-3 generations, with and without ignore patterns) followed by 0-3 mutations (same-size bit flip with the mtime "
-        "kept, rewrite, append, delete file / empty dir, add file, touch) and then verify, diff, create (two scenarios in seven with -dr, one of them on a history sealed with -n); oracle: exit code and named paths derived from "
+        "kept, rewrite, append, delete file / empty dir / (one scenario in six) a folder with its content, add file, touch) and then verify, diff, create (two scenarios in seven with -dr, one of them on a history sealed with -n); oracle: exit code and named paths derived from "
         "the generations read back independently. Non-trivial: at least one mutation step.")
 # recorded inputs that run first on every run: a folder recorded without directory hashes (-n) vanishes (renamed) and create -dr
 # has new paths to compare with -- the rename detection must not end in an internal error (it did: AttributeError on None)
